@@ -38,15 +38,12 @@ deriving DecidableEq, Repr
 /-- the places where the Rust code can panic -/
 inductive PanicSite
   | chunksZero            -- `data.chunks(in_len)` with `in_len = 0` (:812, :822, :840, :854)
-  | resetDimUnderflow     -- `self.info.width - fctl.x_offset` (:1022-1023, :1552-1553)
-  | animWrittenOverflow   -- `self.animation_written += 1` (:875)
-  | seqOverflow           -- `fctl.sequence_number += 1` (:1266, :1321)
-  | chunkBufferIndex      -- `self.buffer[0..4]` with a buffer shorter than 4 (:1320)
-  | rowSlice              -- `self.curr_buf[..self.line_len]` with `line_len > curr_buf.len()` (:1710)
-  | unreachableWrapper    -- the `unreachable!()` arms on `Wrapper` (:1652, :1653, :1674, :1702, :1703, :1727)
-  | assertIndexZero       -- `assert_eq!(self.index, 0)` (:1253)
-  | setFctlNotAnimated    -- `panic!("This function must be called on an animated PNG")` (:1286)
-  | toWriteUnderflow      -- `self.to_write -= written` (:1712)
+  | resetDimUnderflow     -- `self.info.width - fctl.x_offset` (:1022-1023, :1554-1555)
+  | animWrittenOverflow   -- `animation_written += 1` (:875, :1270)
+  | rowSlice              -- `self.curr_buf[..self.line_len][self.index..]` out of range (:1739); reachable: N12
+  | unreachableWrapper    -- the `unreachable!()` arms on `Wrapper` (:1678, :1679, :1703, :1731, :1732, :1756)
+  | assertIndexZero       -- `assert_eq!(self.index, 0)` (:1254)
+  | toWriteUnderflow      -- `self.to_write -= written` (:1741)
 deriving DecidableEq, Repr
 
 inductive Res
@@ -390,8 +387,6 @@ def nextDims (s : WState) : Nat × Nat :=
 
 def inLenOf (s : WState) (w : Nat) : Nat := rawRowLengthFromWidth s.color s.depth w - 1
 
-def idatChunks (z : Bytes) : List RChunk := (chunksOf maxIdatChunkLen z).map mkIdat
-
 /-- the fdAT loop (:881-888): every chunk takes the next sequence number (`wrapping_add`) -/
 def fdatChunks : Nat → List Bytes → List RChunk × Nat
   | seq, [] => ([], seq)
@@ -416,16 +411,16 @@ def imageChecks (s : WState) (data : Bytes) : Except Res (Nat × Nat) :=
   if dataSize ≠ data.length then .error (.err .imageBufferSize) else
   if inLen = 0 then .error (.panic .chunksZero) else .ok (inLen, wh.2)
 
-/-- `write_zlib_encoded_idat` + `increment_images_written` (:867, :870, :879, :893) -/
-def emitIdatImage (s : WState) (z : Bytes) : WState × Res :=
-  match s.emit (idatChunks z) with
+/-- `write_zlib_encoded_idat` + `increment_images_written` (:867, :870, :879, :893); `parts`: the zlib
+    stream cut into the payloads of the chunks (`write_image_data`: `chunks(MAX_IDAT_CHUNK_LEN)`) -/
+def emitIdatImage (s : WState) (parts : List Bytes) : WState × Res :=
+  match s.emit (parts.map mkIdat) with
   | (s', false) => (s', .err .io)
   | (s', true) => (incrementImagesWritten s', .ok)
 
 /-- the fdAT loop (:881-888) + `increment_images_written`: one chunk at a time, the sequence number is
     bumped after each successful write; a failing write leaves the number of the failed chunk -/
-def emitFdatImage (s1 : WState) (f : FC) (seq1 : Nat) (z : Bytes) : WState × Res :=
-  let parts := chunksOf maxFdatChunkLen z
+def emitFdatImage (s1 : WState) (f : FC) (seq1 : Nat) (parts : List Bytes) : WState × Res :=
   let before := s1.sink.chunks.length
   match s1.emit (fdatChunks seq1 parts).1 with
   | (s2, false) =>
@@ -434,27 +429,29 @@ def emitFdatImage (s1 : WState) (f : FC) (seq1 : Nat) (z : Bytes) : WState × Re
   | (s2, true) =>
     (incrementImagesWritten { s2 with fctl := some { f with seq := seqAfter seq1 parts.length } }, .ok)
 
-/-- fcTL, then the image data as IDAT (first image) or fdAT (:872-890) -/
-def emitFrame (s : WState) (f : FC) (z : Bytes) : WState × Res :=
+/-- fcTL, then the image data as IDAT (first image, payloads `pi`) or fdAT (payloads `pf`) (:872-890) -/
+def emitFrame (s : WState) (f : FC) (pi pf : List Bytes) : WState × Res :=
   match s.emit [mkFctl f] with
   | (s', false) => (s', .err .io)
   | (s', true) =>
     if s'.animWritten + 1 ≥ 2 ^ 32 then (s', .panic .animWrittenOverflow) else
     let seq1 := (f.seq + 1) % 2 ^ 32
     let s1 := { s' with fctl := some { f with seq := seq1 }, animWritten := s'.animWritten + 1 }
-    if s1.imagesWritten = 0 then emitIdatImage s1 z else emitFdatImage s1 f seq1 z
+    if s1.imagesWritten = 0 then emitIdatImage s1 pi else emitFdatImage s1 f seq1 pf
 
 /-- :865-893 -/
-def emitImage (s : WState) (z : Bytes) : WState × Res :=
+def emitImage (s : WState) (pi pf : List Bytes) : WState × Res :=
   match s.fctl with
-  | none => emitIdatImage s z
-  | some f => if skipFctlOnDefault s then emitIdatImage s z else emitFrame s f z
+  | none => emitIdatImage s pi
+  | some f => if skipFctlOnDefault s then emitIdatImage s pi else emitFrame s f pi pf
 
 /-- `Writer::write_image_data` (:771-896) -/
 def writeImageData (E : Codec) (s : WState) (data : Bytes) : WState × Res :=
   match imageChecks s data with
   | .error r => (s, r)
-  | .ok (inLen, h) => emitImage s (E.encode (bytesPerPixel s.color s.depth) inLen h data)
+  | .ok (inLen, h) =>
+    let z := E.encode (bytesPerPixel s.color s.depth) inLen h data
+    emitImage s (chunksOf maxIdatChunkLen z) (chunksOf maxFdatChunkLen z)
 
 /-! ### Frame setters (:945-1087) -/
 
@@ -607,20 +604,26 @@ deriving DecidableEq, Repr
 
 def chunkCap : Nat := 2 ^ 31 - 1   -- `u32::MAX as usize >> 1` (:1210)
 
-/-- `ChunkWriter::new` (:1203-1222) -/
-def CW.new (w : WState) (bufLen : Nat) : CW :=
-  { w, cap := min chunkCap bufLen, curr := if w.imagesWritten = 0 then tyIDAT else tyFDAT }
+/-- the kind of data chunk of the next image: like `write_image_data`, the first image is an IDAT and
+    so is every image written after the animation is complete (:1211-1215, :1259-1263) -/
+def chunkKind (w : WState) : Ty :=
+  if w.imagesWritten = 0 ∨ w.fctl = none then tyIDAT else tyFDAT
 
-/-- `next_frame_info` (:1230-1248): `in_len.checked_mul(height).unwrap_or(usize::MAX)` -/
+/-- `ChunkWriter::new` (:1203-1223): the buffer has room for a sequence number and one byte -/
+def CW.new (w : WState) (bufLen : Nat) : CW :=
+  { w, cap := max (min chunkCap bufLen) 5, curr := chunkKind w }
+
+/-- `next_frame_info` (:1231-1249): `in_len.checked_mul(height).unwrap_or(usize::MAX)` -/
 def CW.nextFrameInfo (c : CW) : Nat × Nat :=
   let (w, h) := nextDims c.w
   let inLen := inLenOf c.w w
   (inLen, if inLen * h < 2 ^ 64 then inLen * h else 2 ^ 64 - 1)
 
-/-- `ChunkWriter::write_header` (:1252-1272) -/
+/-- `ChunkWriter::write_header` (:1253-1277): an fcTL (unless skipped for the default image) takes the
+    next sequence number (`wrapping_add`) and counts as an animation frame (`animation_written += 1`) -/
 def CW.writeHeader (c : CW) : CW × Res :=
   if c.buf.length ≠ 0 then (c, .panic .assertIndexZero) else
-  let c := { c with curr := if c.w.imagesWritten = 0 then tyIDAT else tyFDAT }
+  let c := { c with curr := chunkKind c.w }
   match c.w.fctl with
   | none => (c, .ok)
   | some f =>
@@ -628,16 +631,23 @@ def CW.writeHeader (c : CW) : CW × Res :=
     match c.w.emit [mkFctl f] with
     | (w', false) => ({ c with w := w' }, .err .io)
     | (w', true) =>
-      if f.seq + 1 ≥ 2 ^ 32 then ({ c with w := w' }, .panic .seqOverflow)
-      else ({ c with w := { w' with fctl := some { f with seq := f.seq + 1 } } }, .ok)
+      if w'.animWritten + 1 ≥ 2 ^ 32 then ({ c with w := w' }, .panic .animWrittenOverflow)
+      else ({ c with w := { w' with fctl := some { f with seq := (f.seq + 1) % 2 ^ 32 },
+                                     animWritten := w'.animWritten + 1 } }, .ok)
 
-/-- `set_fctl` (:1278-1288) -/
-def CW.setFctl (c : CW) (f : FC) : CW × Res :=
+/-- `set_fctl` (:1282-1291): nothing happens once the animation is complete -/
+def CW.setFctl (c : CW) (f : FC) : CW :=
   match c.w.fctl with
-  | some cur => ({ c with w := { c.w with fctl := some { f with seq := cur.seq } } }, .ok)
-  | none => (c, .panic .setFctlNotAnimated)
+  | some cur => { c with w := { c.w with fctl := some { f with seq := cur.seq } } }
+  | none => c
 
-/-- `flush_inner` (:1291-1303) -/
+/-- `if let Some(fctl) = self.fctl { wrt.set_fctl(fctl) }` (:1684-1686) -/
+def CW.setFctlOpt (c : CW) (f : Option FC) : CW :=
+  match f with
+  | some f => c.setFctl f
+  | none => c
+
+/-- `flush_inner` (:1294-1306) -/
 def CW.flushInner (c : CW) : CW × Res :=
   if c.buf.length > 0 then
     match c.w.emit [⟨c.curr, c.buf⟩] with
@@ -645,20 +655,16 @@ def CW.flushInner (c : CW) : CW × Res :=
     | (w', false) => ({ c with w := w' }, .err .io)
   else (c, .ok)
 
-/-- start of a chunk (`index == 0`, :1313-1324): an animated writer puts the next sequence number
-    into the first four bytes of the buffer — whatever the chunk type is -/
-def CW.startChunk (c : CW) : CW × Option PanicSite :=
-  if c.buf.length = 0 then
+/-- start of a chunk (`index == 0`, :1316-1325): every fdAT chunk starts with the next sequence
+    number (`wrapping_add`); an IDAT chunk never does -/
+def CW.startChunk (c : CW) : CW :=
+  if c.buf.length = 0 ∧ c.curr = tyFDAT then
     match c.w.fctl with
-    | some f =>
-      if skipFctlOnDefault c.w then (c, none) else
-      if c.cap < 4 then (c, some .chunkBufferIndex) else
-      if f.seq + 1 ≥ 2 ^ 32 then (c, some .seqOverflow) else
-      ({ c with buf := be32Bytes f.seq, w := { c.w with fctl := some { f with seq := f.seq + 1 } } }, none)
-    | none => (c, none)
-  else (c, none)
+    | some f => { c with buf := be32Bytes f.seq, w := { c.w with fctl := some { f with seq := (f.seq + 1) % 2 ^ 32 } } }
+    | none => c
+  else c
 
-/-- copy as much as fits, emit the chunk when the buffer is full (:1326-1339) -/
+/-- copy as much as fits, emit the chunk when the buffer is full (:1327-1340) -/
 def CW.append (c : CW) (data : Bytes) : CW × Out Nat :=
   let written := min data.length (c.cap - c.buf.length)
   let c := { c with buf := c.buf ++ data.take written }
@@ -669,12 +675,9 @@ def CW.append (c : CW) (data : Bytes) : CW × Out Nat :=
     | (c', .panic p) => (c', .panic p)
   else (c, .ok written)
 
-/-- `impl Write for ChunkWriter`: `write` (:1307-1340) -/
+/-- `impl Write for ChunkWriter`: `write` (:1310-1341) -/
 def CW.write (c : CW) (data : Bytes) : CW × Out Nat :=
-  if data = [] then (c, .ok 0) else
-  match c.startChunk with
-  | (c, some p) => (c, .panic p)
-  | (c, none) => c.append data
+  if data = [] then (c, .ok 0) else c.startChunk.append data
 
 /-- `flate2::write::ZlibEncoder<ChunkWriter>`: the compressor (its history) and flate2's buffer of
     produced but not yet forwarded output (`zio::Writer::buf`) -/
@@ -722,7 +725,7 @@ def ZEnc.finish (Z : ZCodec) (z : ZEnc) : ZEnc × Res :=
     ({ z' with pending := z'.pending ++ Z.out z'.hist ZOp.finish, hist := z'.hist ++ [ZOp.finish] }).dump
   | r => r
 
-/-- dropping a `ChunkWriter` (:1347-1351), then — if it owns the `Writer` — the `Writer` -/
+/-- dropping a `ChunkWriter` (:1348-1352), then — if it owns the `Writer` — the `Writer` -/
 def CW.drop (c : CW) (owned : Bool) : WState × Res :=
   match c.flushInner with
   | (c', .panic p) => (c'.w, .panic p)
@@ -749,7 +752,7 @@ structure SW where
   owned : Bool
   bpp : Nat
   prevBuf : Bytes
-  curBuf : Bytes            -- `curr_buf` (full canvas row)
+  curBuf : Bytes            -- `curr_buf`: one row of the current frame
   index : Nat := 0
   lineLen : Nat
   toWrite : Nat
@@ -771,25 +774,56 @@ def SW.release (s : SW) (w : Option WState) : SW :=
   | some w => { s with released := some w }
   | none => s
 
-/-- `StreamWriter::new` (:1418-1457).  Refuses an indexed image without palette and a first image that
-    does not cover the canvas before anything is written.  On an error — and when a panic unwinds —
-    the chunk writer (and an owned `Writer`) is dropped. -/
+/-- the checks of `StreamWriter::new` before anything is written (:1420-1424) -/
+def streamChecks (w : WState) : Option Err :=
+  if w.color = 3 ∧ w.hasPalette = false then some .noPalette else
+  match validateNewImage w with
+  | some e => some e
+  | none => validateFirstImageRect w
+
+/-- `StreamWriter::new` (:1419-1460).  The row buffers are as long as the first frame is wide.  On an
+    error — and when a panic unwinds — the chunk writer (and an owned `Writer`) is dropped. -/
 def SW.new (w : WState) (owned : Bool) (bufLen : Nat) : Sum SW WState × Res :=
-  if w.color = 3 ∧ w.hasPalette = false then (.inr (if owned then dropW w else w), .err .noPalette) else
-  match validateFirstImageRect w with
+  match streamChecks w with
   | some e => (.inr (if owned then dropW w else w), .err e)
   | none =>
-  let inLen := inLenOf w w.width
   let cw := CW.new w bufLen
-  let (lineLen, toWrite) := cw.nextFrameInfo
+  let info := cw.nextFrameInfo
   match cw.writeHeader with
   | (cw', .ok) =>
     (.inl { wr := .zlib { cw := cw' }, owned, bpp := bytesPerPixel w.color w.depth,
-            prevBuf := List.replicate inLen 0, curBuf := List.replicate inLen 0,
-            lineLen, toWrite, width := w.width, height := w.height, fctl := w.fctl }, .ok)
+            prevBuf := List.replicate info.1 0, curBuf := List.replicate info.1 0,
+            lineLen := info.1, toWrite := info.2, width := w.width, height := w.height, fctl := w.fctl }, .ok)
   | (cw', r) => (.inr (cw'.drop owned).1, r)
 
-/-- `new_frame` (:1645-1678) -/
+/-- `take()` a `Zlib` wrapper and finish its stream (:1651-1660, :1722-1732).  `ZlibEncoder::finish(self)`
+    consumes the encoder: on an error it is dropped, with the chunk writer and an owned `Writer`. -/
+def SW.endZlib (Z : ZCodec) (s : SW) : SW × Res :=
+  match s.wr with
+  | .zlib z =>
+    match z.finish Z with
+    | (z', .ok) => ({ s with wr := .chunk z'.cw }, .ok)
+    | (z', .panic p) => ({ s with wr := .zlib z' }, .panic p)
+    | (z', .err e) =>
+      let (w, r) := z'.drop Z s.owned
+      match r with
+      | .panic p => ({ s with wr := .unrecoverable, released := some w }, .panic p)
+      | _ => ({ s with wr := .unrecoverable, released := some w }, .err e)
+  | _ => (s, .ok)
+
+/-- `finish_image` (:1649-1666): end the compressed stream, flush the last chunk, count the image -/
+def SW.finishImage (Z : ZCodec) (s : SW) : SW × Res :=
+  match s.endZlib Z with
+  | (s, .ok) =>
+    match s.wr with
+    | .chunk cw =>
+      match cw.flushInner with
+      | (cw', .ok) => ({ s with wr := .chunk { cw' with w := incrementImagesWritten cw'.w } }, .ok)
+      | (cw', r) => ({ s with wr := .chunk cw' }, r)
+    | _ => (s, .ok)
+  | r => r
+
+/-- `new_frame` (:1671-1707): the frame header is written BEFORE the row geometry is changed -/
 def SW.newFrame (s : SW) : SW × Res :=
   match s.wr with
   | .unrecoverable => (s, .err .unrecoverable)
@@ -803,71 +837,65 @@ def SW.newFrame (s : SW) : SW × Res :=
       match validateNewImage cw.w with
       | some e => ({ s with wr := .chunk cw }, .err e)
       | none =>
-        let sf : CW × Res := match s.fctl with
-          | some f => cw.setFctl f
-          | none => (cw, .ok)
-        match sf with
-        | (cw, .panic p) => ({ s with wr := .chunk cw }, .panic p)
-        | (cw, .err e) => ({ s with wr := .chunk cw }, .err e)
+        let cw := cw.setFctlOpt s.fctl
+        let info := cw.nextFrameInfo
+        match cw.writeHeader with
         | (cw, .ok) =>
-          let (scan, size) := cw.nextFrameInfo
-          (
-            let s := { s with lineLen := scan, toWrite := size }
-            match cw.writeHeader with
-            | (cw, .ok) =>
-              let cw := { cw with w := incrementImagesWritten cw.w }
-              ({ s with wr := .zlib { cw } }, .ok)
-            | (cw, r) => ({ s with wr := .chunk cw }, r))
+          ({ s with wr := .zlib { cw }, lineLen := info.1, toWrite := info.2,
+                    prevBuf := List.replicate info.1 0,
+                    curBuf := (s.curBuf ++ List.replicate info.1 0).take info.1 }, .ok)
+        | (cw, r) => ({ s with wr := .chunk cw }, r)
 
 /-- overwrite the bytes of `buf` from position `i` with `d` (`data.read(&mut buf[i..])`) -/
 def overwrite (buf : Bytes) (i : Nat) (d : Bytes) : Bytes := buf.take i ++ d ++ buf.drop (i + d.length)
 
-/-- `impl Write for StreamWriter`: `write` (:1682-1737) -/
+/-- the part of `write` that starts the next image when the previous one is complete (:1720-1737) -/
+def SW.beginIfDone (Z : ZCodec) (s : SW) : SW × Res :=
+  if s.toWrite = 0 then
+    match s.wr with
+    | .unrecoverable => (s, .panic .unreachableWrapper)
+    | .none => (s, .panic .unreachableWrapper)
+    | _ =>
+      match s.endZlib Z with
+      | (s1, .ok) => s1.newFrame
+      | r => r
+  else (s, .ok)
+
+/-- a complete row: filter, hand to the compressor, swap the buffers; after the last row of the
+    image, `finish_image` (:1743-1767) -/
+def SW.rowDone (Z : ZCodec) (s : SW) : SW × Res :=
+  match s.wr with
+  | .zlib z =>
+    let r := Z.row s.bpp s.prevBuf s.curBuf
+    match z.writeAll Z (r.take 1) with
+    | (z, .ok) =>
+      match z.writeAll Z (r.drop 1) with
+      | (z, .ok) =>
+        let s := { s with wr := .zlib z, prevBuf := s.curBuf, curBuf := s.prevBuf, index := 0 }
+        if s.toWrite = 0 then s.finishImage Z else (s, .ok)
+      | (z, r) => ({ s with wr := .zlib z }, r)
+    | (z, r) => ({ s with wr := .zlib z }, r)
+  | _ => (s, .panic .unreachableWrapper)
+
+/-- `impl Write for StreamWriter`: `write` (:1711-1770) -/
 def SW.write (Z : ZCodec) (s : SW) (data : Bytes) : SW × Out Nat :=
   if s.wr = .unrecoverable then (s, .err .unrecoverable) else
   if data = [] then (s, .ok 0) else
-  let pre : SW × Res :=
-    if s.toWrite = 0 then
-      let s1 : SW × Res := match s.wr with
-        | .zlib z =>
-          match z.finish Z with
-          | (z', .ok) => ({ s with wr := .chunk z'.cw }, .ok)
-          | (z', .panic p) => ({ s with wr := .zlib z' }, .panic p)
-          | (z', .err e) =>
-            -- `ZlibEncoder::finish(self)` failed: the encoder, the chunk writer and an owned Writer are dropped
-            let (w, r) := z'.drop Z s.owned
-            match r with
-            | .panic p => ({ s with wr := .unrecoverable, released := some w }, .panic p)
-            | _ => ({ s with wr := .unrecoverable, released := some w }, .err e)
-        | .chunk c => ({ s with wr := .chunk c }, .ok)
-        | .unrecoverable => (s, .panic .unreachableWrapper)
-        | .none => (s, .panic .unreachableWrapper)
-      match s1 with
-      | (s1, .ok) => s1.newFrame
-      | r => r
-    else (s, .ok)
-  match pre with
+  match s.beginIfDone Z with
   | (s, .err e) => (s, .err e)
   | (s, .panic p) => (s, .panic p)
   | (s, .ok) =>
-    if s.lineLen > s.curBuf.length then (s, .panic .rowSlice) else
+    -- `self.curr_buf[..self.line_len][self.index..]`
+    if s.lineLen > s.curBuf.length ∨ s.index > s.lineLen then (s, .panic .rowSlice) else
     let written := min data.length (s.lineLen - s.index)
     if written > s.toWrite then (s, .panic .toWriteUnderflow) else
     let s := { s with curBuf := overwrite s.curBuf s.index (data.take written),
                       index := s.index + written, toWrite := s.toWrite - written }
     if s.index = s.lineLen then
-      match s.wr with
-      | .zlib z =>
-        let r := Z.row s.bpp s.prevBuf s.curBuf
-        match z.writeAll Z (r.take 1) with
-        | (z, .ok) =>
-          match z.writeAll Z (r.drop 1) with
-          | (z, .ok) => ({ s with wr := .zlib z, prevBuf := s.curBuf, curBuf := s.prevBuf, index := 0 }, .ok written)
-          | (z, .err e) => ({ s with wr := .zlib z }, .err e)
-          | (z, .panic p) => ({ s with wr := .zlib z }, .panic p)
-        | (z, .err e) => ({ s with wr := .zlib z }, .err e)
-        | (z, .panic p) => ({ s with wr := .zlib z }, .panic p)
-      | _ => (s, .panic .unreachableWrapper)
+      match s.rowDone Z with
+      | (s, .ok) => (s, .ok written)
+      | (s, .err e) => (s, .err e)
+      | (s, .panic p) => (s, .panic p)
     else (s, .ok written)
 
 /-- `Write::write_all` (std): repeat `write`; `Ok(0)` is `WriteZero` -/
@@ -882,7 +910,7 @@ def SW.writeAllAux (Z : ZCodec) : Nat → SW → Bytes → SW × Res
 
 def SW.writeAll (Z : ZCodec) (s : SW) (d : Bytes) : SW × Res := SW.writeAllAux Z (d.length + 1) s d
 
-/-- `impl Write for StreamWriter`: `flush` (:1739-1757) -/
+/-- `impl Write for StreamWriter`: `flush` (:1772-1790) -/
 def SW.flush (Z : ZCodec) (s : SW) : SW × Res :=
   let r : SW × Res := match s.wr with
     | .zlib z => let (z', r) := z.flush Z; ({ s with wr := .zlib z' }, r)
@@ -892,7 +920,7 @@ def SW.flush (Z : ZCodec) (s : SW) : SW × Res :=
   | (s, .ok) => if s.index > 0 then (s, .err .writtenTooMuch) else (s, .ok)
   | r => r
 
-/-- `Drop for StreamWriter` (:1760-1764) followed by the drop of its fields -/
+/-- `Drop for StreamWriter` (:1793-1797) followed by the drop of its fields -/
 def SW.drop (Z : ZCodec) (s : SW) : SW × Res :=
   match s.flush Z with
   | (s, .panic p) => (s, .panic p)
@@ -900,7 +928,26 @@ def SW.drop (Z : ZCodec) (s : SW) : SW × Res :=
     let (w, r) := s.wr.drop Z s.owned
     (({ s with wr := .none }).release w, r)
 
-/-- `StreamWriter::finish` (:1625-1639); the returned state is the one after `self` has been dropped -/
+/-- the `Wrapper::Chunk` arm of `finish` (:1634-1641): sequence validation and, for an owned `Writer`,
+    the IEND chunk and the sink's `flush` — reported, not left to `Drop`; then the chunk writer is
+    dropped (an owned `Writer` with it: no second IEND, the flag is set) -/
+def SW.finishChunk (s : SW) (cw : CW) : SW × Res :=
+  let fin (w : WState) (r : Res) : SW × Res :=
+    let (w', _) := ({ cw with w := w }).drop s.owned
+    ({ s with wr := .none, released := some w' }, r)
+  match validateSequenceDone cw.w with
+  | some e => fin cw.w (.err e)
+  | none =>
+    if s.owned then
+      match writeIend cw.w with
+      | (w1, false) => fin w1 (.err .io)
+      | (w1, true) =>
+        match w1.sink.flush with
+        | (k, false) => fin { w1 with sink := k } (.err .io)
+        | (k, true) => fin { w1 with sink := k } .ok
+    else fin cw.w .ok
+
+/-- `StreamWriter::finish` (:1627-1645); the returned state is the one after `self` has been dropped -/
 def SW.finish (Z : ZCodec) (s : SW) : SW × Res :=
   if s.toWrite > 0 then
     match s.drop Z with
@@ -914,21 +961,17 @@ def SW.finish (Z : ZCodec) (s : SW) : SW × Res :=
       | (s, .panic p) => (s, .panic p)
       | (s, _) => (s, .err e)
     | (s, .ok) =>
-      -- `self.writer.take()`: a `Chunk` is validated and dropped, anything else is just dropped
-      let v : Option Err := match s.wr with
-        | .chunk c => validateSequenceDone c.w
-        | _ => none
-      let (w, r) := s.wr.drop Z s.owned
-      let s := ({ s with wr := .none }).release w
-      match r with
-      | .panic p => (s, .panic p)
+      match s.wr with
+      | .chunk cw => s.finishChunk cw
       | _ =>
-        -- then `Drop for StreamWriter`: `flush` on `Wrapper::None` is an ignored error
-        match v with
-        | some e => (s, .err e)
-        | none => (s, .ok)
+        -- `self.writer.take()` of anything else is just dropped; `Drop for StreamWriter` then sees `None`
+        let (w, r) := s.wr.drop Z s.owned
+        let s := ({ s with wr := .none }).release w
+        match r with
+        | .panic p => (s, .panic p)
+        | _ => (s, .ok)
 
-/-! ### Frame setters shared by both writers: the `StreamWriter` ones work on its own copy (:1479-1617) -/
+/-! ### Frame setters shared by both writers: the `StreamWriter` ones work on its own copy (:1481-1619) -/
 
 inductive SetOp
   | delay (n d : Nat)
